@@ -262,9 +262,20 @@ fn string_strategy() -> BoxedStrategy<String> {
         "[0-9a-z ]{0,8}",
     )
         .prop_map(|(p, n, fill, mid, tail)| format!("{p}{}{mid}{tail}", std::iter::repeat(fill).take(n).collect::<String>()));
+    // the id in one of the notations other tools write (CURIE with '_', PURL, lower case, "HPO:"), behind a lead text:
+    // "xHP_5", "http://purl.obolibrary.org/obo/HP_0000118", "HP:0000118HP_0000001". A parser that searches for
+    // the notation instead of cutting at byte 3 accepts these; the grammar of the statement decides every one.
+    let embedded = (
+        proptest::sample::select(vec!["", "x", "00", "0", "+", " ", "éé", "€", "obo:", "HP:", "HP_", "HP:0000118", "HP_0000118", "http://purl.obolibrary.org/obo/", "https://hpo.jax.org/app/browse/term/", "obo/", "<", "\""]),
+        proptest::sample::select(vec!["HP_", "HP:", "hp_", "hp:", "Hp_", "HP-", "HP.", "HP/", "HP ", "HPO:", "HPO_", "HP", "_", ":"]),
+        prop_oneof![4 => "[0-9]{1,7}", 1 => "\\+[0-9]{1,7}", 1 => "0{1,6}[0-9]{1,4}", 1 => Just("4294967295".to_string())],
+        proptest::sample::select(vec!["", "", "", ">", "\"", " ", "HP_1", "/"]),
+    )
+        .prop_map(|(l, n, b, t)| format!("{l}{n}{b}{t}"));
     prop_oneof![
         8 => (prefix, body).prop_map(|(p, b)| format!("{p}{b}")),
         2 => edited,
+        2 => embedded,
         1 => long,
         1 => any_chars,
         1 => "\\PC{0,14}",
